@@ -49,6 +49,12 @@ type XCfg struct {
 	Branch func(site string, kind OpKind) bool
 	// AtomicLoad reports whether the atomic operation at site only loads (nil = none does).
 	AtomicLoad func(site string) bool
+	// AccessWrite promotes the announced read at site to a write (an announced variable that stands for
+	// something behind it, e.g. the pointer to a store: reading the pointer in order to write through it).
+	AccessWrite func(site string) bool
+	// NoRace: announced accesses at this site take part in the dependence relation and in the lockset
+	// records but are not reported as data races (the variable stands for an internally synchronised object).
+	NoRace func(site string) bool
 	// ReadSection reports whether the exclusive Lock at site opens a critical section that only
 	// reads what the mutex protects and contains no other scheduling-relevant operation. Such a
 	// section runs atomically (nothing inside is a preemption point) and commutes with the other
@@ -337,6 +343,9 @@ func RunX(cfg XCfg, setup func(s *Sched)) *XExec {
 		for i := 0; i < len(en); i++ {
 			for j := i + 1; j < len(en); j++ {
 				a, b := en[i].pending, en[j].pending
+				if cfg.NoRace != nil && (cfg.NoRace(a.Site) || cfg.NoRace(b.Site)) {
+					continue
+				}
 				if (a.Kind == OpAccessR || a.Kind == OpAccessW) && (b.Kind == OpAccessR || b.Kind == OpAccessW) && a.Addr == b.Addr && (a.Kind == OpAccessW || b.Kind == OpAccessW) {
 					x.Races = append(x.Races, XRace{Addr: a.Addr, SiteA: a.Site, SiteB: b.Site, KindA: kindName[a.Kind], KindB: kindName[b.Kind], ThreadA: en[i].name, ThreadB: en[j].name, Step: step, CoEnabled: true})
 				}
@@ -347,6 +356,9 @@ func RunX(cfg XCfg, setup func(s *Sched)) *XExec {
 		preempt := false
 		if curEnabled {
 			op := s.current.pending
+			if op.Kind == OpAccessR && cfg.AccessWrite != nil && cfg.AccessWrite(op.Site) {
+				op.Kind = OpAccessW
+			}
 			closesRS := false
 			if op.Kind == OpUnlock {
 				for _, r := range xts[s.current.id].rs {
@@ -399,6 +411,9 @@ func RunX(cfg XCfg, setup func(s *Sched)) *XExec {
 		}
 		t := alts[c]
 		op := t.pending
+		if op.Kind == OpAccessR && cfg.AccessWrite != nil && cfg.AccessWrite(op.Site) {
+			op.Kind = OpAccessW
+		}
 		xt := xts[t.id]
 		x.Kinds[op.Kind]++
 		if cfg.Trace {
@@ -523,12 +538,13 @@ func RunX(cfg XCfg, setup func(s *Sched)) *XExec {
 				sh = &xvarShadow{rClk: map[int]uint32{}, rSite: map[int]string{}}
 				shadow[op.Addr] = sh
 			}
-			if sh.wSet && sh.wTid != t.id && sh.wClk > vcGet(xt.vc, sh.wTid) {
+			noRace := cfg.NoRace != nil && cfg.NoRace(op.Site)
+			if !noRace && sh.wSet && sh.wTid != t.id && sh.wClk > vcGet(xt.vc, sh.wTid) {
 				x.Races = append(x.Races, XRace{Addr: op.Addr, SiteA: sh.wSite, KindA: "write", ThreadA: ths[sh.wTid].name, SiteB: op.Site, KindB: kindName[op.Kind], ThreadB: t.name, Step: step})
 			}
 			if op.Kind == OpAccessW {
 				for u, clk := range sh.rClk {
-					if u != t.id && clk > vcGet(xt.vc, u) {
+					if !noRace && u != t.id && clk > vcGet(xt.vc, u) {
 						x.Races = append(x.Races, XRace{Addr: op.Addr, SiteA: sh.rSite[u], KindA: "read", ThreadA: ths[u].name, SiteB: op.Site, KindB: "write", ThreadB: t.name, Step: step})
 					}
 				}
